@@ -333,6 +333,7 @@ func translateOneDataBlob(logger log.Logger, match stringMatcher, visitor visito
 		if !s2scommon.IsInvalidUTF8Error(err) {
 			return blob, matched, changed, err
 		}
+		deserializeErr := err
 
 		// A change due to repairing invalid UTF8 does not count as a "match".
 		// For example, the access control visitor only wants to match if
@@ -347,6 +348,10 @@ func translateOneDataBlob(logger log.Logger, match stringMatcher, visitor visito
 			logger.Debug("repaired invalid utf-8 in history event blob")
 			metrics.TranslationCount.WithLabelValues(metrics.UTF8RepairTranslationKind, metrics.HistoryBlobMessageType).Inc()
 			events = repairedEvents
+		} else {
+			// Nothing was repaired (the invalid utf-8 is not in a failure message), so the blob is still undecodable.
+			// Report that instead of silently skipping the visitor (translation / access control) for this blob.
+			return blob, matched, changed, deserializeErr
 		}
 	}
 
